@@ -22,6 +22,7 @@ def oracle(rec):
 def run(rep, tier, seed):
     n = 300 if tier == "quick" else 6000
     progs = standard_programs(seed, n // 2, "interp") + standard_programs(seed + 104729, n - n // 2, "given", crossed_p=0.15)
+    progs = streams.corpus_programs("C13") + progs
     # every program ends with two identical passes: the second must report 0 iff nothing moved
     for p in progs:
         p["ops"] = list(p["ops"]) + [("passup",), ("passup",), ("passdown",), ("passdown",)]
